@@ -280,7 +280,31 @@ def coq_check_props(area, propfile="Properties.v", timeout=1500, extra_targets=(
     rc, o = 1, ""
     if os.path.exists(pf):
         args = coqproject_args(d)
-        rc, o = sh(["coqc"] + args + [propfile], cwd=d, timeout=timeout)
+        # The Properties file is recompiled unless NOTHING it can depend on changed since the last successful compile:
+        # key = contents of every .v file of this area and of the areas it imports (generated parameter files included)
+        # + the coqc version.  Same inputs -> same kernel verdict and same Print Assumptions text (this is what make does
+        # for every other file).  A fresh clone has no cache and compiles everything.
+        key = _coq_sources_key(area)
+        cache = os.path.join(d, "." + propfile + ".assumptions")
+        cached = None
+        if ok and os.path.exists(vo) and os.path.exists(cache):
+            try:
+                c = json.load(open(cache))
+                newest_dep = max([os.path.getmtime(x) for x in glob.glob(os.path.join(d, "**", "*.vo"), recursive=True) if x != vo] or [0])
+                if c.get("key") == key and os.path.getmtime(vo) >= newest_dep:
+                    cached = c
+            except (OSError, ValueError):
+                cached = None
+        if cached is not None:
+            rc, o = 0, cached["out"]
+            res["assumptions_from_cache"] = True
+        else:
+            rc, o = sh(["coqc"] + args + [propfile], cwd=d, timeout=timeout)
+            if rc == 0:
+                try:
+                    json.dump({"key": key, "out": o}, open(cache, "w"))
+                except OSError:
+                    pass
         res["assumptions"] = parse_assumptions(o, res["theorems"])
         if rc != 0:
             res["log"] += "\n" + o[-3000:]
@@ -292,6 +316,33 @@ def coq_check_props(area, propfile="Properties.v", timeout=1500, extra_targets=(
     if ok and rc == 0 and os.path.exists(vo) and not res["forbidden"]:
         res["ok"] = True
     return res
+
+
+def _coq_sources_key(area, _seen=None):
+    """hash of every .v file of coq/<area> and of the areas its _CoqProject imports, plus the coqc version"""
+    import hashlib
+    _seen = _seen if _seen is not None else set()
+    if area in _seen:
+        return ""
+    _seen.add(area)
+    d = coq_dir(area)
+    h = hashlib.sha256()
+    for p in sorted(glob.glob(os.path.join(d, "**", "*.v"), recursive=True)) + [os.path.join(d, "_CoqProject")]:
+        try:
+            h.update(os.path.relpath(p, d).encode()); h.update(b"\0"); h.update(open(p, "rb").read()); h.update(b"\0")
+        except OSError:
+            pass
+    try:
+        for l in open(os.path.join(d, "_CoqProject")):
+            t = l.split()
+            if len(t) >= 3 and t[0] in ("-Q", "-R") and t[1].startswith("../"):
+                h.update(_coq_sources_key(os.path.basename(t[1].rstrip("/")), _seen).encode())
+    except OSError:
+        pass
+    if not hasattr(_coq_sources_key, "ver"):
+        _coq_sources_key.ver = sh(["coqc", "--version"])[1]
+    h.update(_coq_sources_key.ver.encode())
+    return h.hexdigest()
 
 
 def coqchk(area, propfile="Properties.v", timeout=900):
